@@ -22,6 +22,14 @@ pub enum Cc {
     Le,
     G,
     Ge,
+    // condition codes the backend does not emit today; given their architectural meaning so that a
+    // change that starts to emit them is judged, not refused
+    A,
+    Ae,
+    B,
+    Be,
+    S,
+    Ns,
 }
 
 #[derive(Clone, Debug)]
@@ -187,7 +195,18 @@ pub fn parse(text: &str) -> Result<Program, String> {
             "jl" => Ins::Jcc(Cc::L, rest.to_string()),
             "jle" => Ins::Jcc(Cc::Le, rest.to_string()),
             "jg" => Ins::Jcc(Cc::G, rest.to_string()),
-            "jge" => Ins::Jcc(Cc::Ge, rest.to_string()),
+            "jge" | "jnl" => Ins::Jcc(Cc::Ge, rest.to_string()),
+            "jz" => Ins::Jcc(Cc::E, rest.to_string()),
+            "jnz" => Ins::Jcc(Cc::Ne, rest.to_string()),
+            "jnge" => Ins::Jcc(Cc::L, rest.to_string()),
+            "jng" => Ins::Jcc(Cc::Le, rest.to_string()),
+            "jnle" => Ins::Jcc(Cc::G, rest.to_string()),
+            "ja" | "jnbe" => Ins::Jcc(Cc::A, rest.to_string()),
+            "jae" | "jnb" | "jnc" => Ins::Jcc(Cc::Ae, rest.to_string()),
+            "jb" | "jnae" | "jc" => Ins::Jcc(Cc::B, rest.to_string()),
+            "jbe" | "jna" => Ins::Jcc(Cc::Be, rest.to_string()),
+            "js" => Ins::Jcc(Cc::S, rest.to_string()),
+            "jns" => Ins::Jcc(Cc::Ns, rest.to_string()),
             "lea" => {
                 let (r, m) = rest.split_once(',').ok_or("lea operands")?;
                 let r = reg(r.trim()).ok_or("lea register")?;
@@ -616,6 +635,12 @@ pub fn run(prog: &Program, args: &[i64], cfg: &EmuConfig) -> EmuResult {
                         Cc::Le => a <= b,
                         Cc::G => a > b,
                         Cc::Ge => a >= b,
+                        Cc::A => (a as u64) > (b as u64),
+                        Cc::Ae => (a as u64) >= (b as u64),
+                        Cc::B => (a as u64) < (b as u64),
+                        Cc::Be => (a as u64) <= (b as u64),
+                        Cc::S => a.wrapping_sub(b) < 0,
+                        Cc::Ns => a.wrapping_sub(b) >= 0,
                     };
                     if t { m.jump_label(l) } else { Ok(pc + 1) }
                 }
